@@ -167,7 +167,8 @@ func (e *badRootExec) Exec(line string) (obs, viol string) {
 		e.lastKnown = false
 		if bad && obs != "err" {
 			viol = fmt.Sprintf("root that %s was not rejected with an error: LoadMast outcome %s", why, obs)
-			if obs == "ok" && rc.NodeCache != nil && (lcfg.KK != e.cfg.KK || r.NodeFormat != e.root.NodeFormat) {
+			knownFmt := r.NodeFormat == "" || r.NodeFormat == "v1marshaler" || r.NodeFormat == "v1.1.5binary"
+			if obs == "ok" && rc.NodeCache != nil && knownFmt && (lcfg.KK != e.cfg.KK || r.NodeFormat != e.root.NodeFormat) {
 				// recorded finding: the top node is taken from a node cache that holds it decoded
 				// under another key type or node format; the cache key does not include the decoding
 				// configuration
